@@ -371,6 +371,7 @@ func runOracle(c *Ctx) {
 	cases = append(cases, regressionCases()...)
 	cases = append(cases, fixedCases()...)
 	cases = append(cases, nestedCases()...)
+	cases = append(cases, bindOptCases()...)
 	search := false
 	for _, a := range c.Args {
 		search = search || a == "search"
